@@ -356,8 +356,12 @@ func purityRun(args []string) error {
 	// (D) independent objects in parallel, cold (purity2.go)
 	parallelCold(r, func(ser string, ref []byte, out []byte, g int) {
 		id++
+		mut := g == 0 && !bytes.Equal(ref, out) // g = 0: the deep rendering of the inputs before (ref) and after (out) the calls
+		if g == 0 {
+			ref, out = nil, nil
+		}
 		emit(map[string]interface{}{"case": fmt.Sprintf("p%d", id), "kind": "hist", "ser": ser, "mode": "parallel-cold", "sched": []int{g}, "ref": ints(ref),
-			"calls": []map[string]interface{}{{"g": g, "out": ints(out)}}, "mutated": false, "sharedcap": false})
+			"calls": []map[string]interface{}{{"g": g, "out": ints(out)}}, "mutated": mut, "sharedcap": false})
 	})
 	// (C) permutations of map insertion order: the same logical header set inserted in random orders
 	for _, ver := range version.AllVersions {
